@@ -53,10 +53,12 @@ def tla_value(v):
     raise ValueError(v)
 
 
-MC_DEFAULTS = dict(Family="conc", Kinds={"single"}, ApisA={"lock"}, ApisB={"lock"}, UnivA={1}, UnivB={1},
-                   MaxLenA=1, MaxLenB=1, Policies={"RP"}, NT=2, Keys={"owned"}, ConcBodies={"acc"},
+MC_DEFAULTS = dict(Family="conc", Kinds={"single"}, ApisA={"lock"}, UnivA={1}, MinLenA=0, MaxLenA=1,
+                   CallsB={("single", (1,), "lock")}, Policies={"RP"}, NT=2, Keys={"owned"}, ConcBodies={"acc"},
                    SeqColls={1}, SeqApis={"lock"}, SeqRels={"drop"}, SeqKeys={"owned"}, SeqBodies={"acc"},
-                   SeqKeyOps=set(), SeqTopOps=set(), SeqDbgColls=set(), SeqMaxLen=1, SeqHolders={("none", 0)})
+                   SeqKeyOps=set(), SeqTopOps=set(), SeqDbgColls=set(), SeqMaxLen=1, SeqHolders={("none", 0)},
+                   FltColls={1}, FltApis={"lock"}, FltKeys={"owned"}, FltRels={"drop"}, FltHolders={("none", 0)},
+                   FltMaxAt=1, FltTryProbes=set(), FltLockProbes=set())
 
 
 def write_cfg(path, consts, init="MCInit", next_="NextP", invariants=(), view="View", extra="", known=()):
@@ -98,7 +100,8 @@ def run_tlc(module, cfg, outdir, tag, workers=1, xmx="3g", timeout=1800, env_ext
             java_opts="", cwd=None):
     meta = os.path.join(outdir, "meta-" + tag)
     out = os.path.join(outdir, "tlc-" + tag + ".out")
-    cmd = ["java", "-XX:+UseParallelGC", "-Xmx" + xmx, "-Xss64m", "-DTLA-Library=" + SPEC] + java_opts.split() + \
+    cmd = ["java", "-XX:+UseParallelGC", "-XX:ParallelGCThreads=2", "-Xmx" + xmx, "-Xss64m",
+           "-DTLA-Library=" + SPEC] + java_opts.split() + \
           ["-cp", JAR_CP, "tlc2.TLC", "-workers", str(workers), "-metadir", meta, "-cleanup",
            "-noGenerateSpecTE", "-config", cfg]
     if simulate:
@@ -215,8 +218,8 @@ HITS_RE = re.compile(r'^<<"HITS", "([^"]*)", (\d+), (\d+)>>')
 
 def validate_trace(trace, outdir, tag, timeout=1200):
     rc, out = run_tlc("TraceHL.tla", os.path.join(SPEC, "TraceHL.cfg"), outdir, "tv-" + tag, workers=1,
-                      xmx="2g", timeout=timeout, env_extra={"TRACE": trace},
-                      java_opts="-Xss1g -Dtlc2.tool.queue.IStateQueue=StateDeque")
+                      xmx="3g", timeout=timeout, env_extra={"TRACE": trace},
+                      java_opts="-Xss1g -XX:ParallelGCThreads=2 -Dtlc2.tool.queue.IStateQueue=StateDeque")
     res = dict(viol=[], drift=[], lines=0, execs=0, conform=0, ok=False, out=out, hits={})
     with open(out, errors="replace") as f:
         txt = f.read()
@@ -246,6 +249,9 @@ def replay_and_validate(scen, runs, outdir, tag, shard_runs=1500):
     """runs: list of (sid, sched).  Returns aggregated result with per-violation replay info."""
     os.makedirs(outdir, exist_ok=True)
     runs = sorted(runs, key=lambda r: (r[0], len(r[1]), r[1]))
+    # few, large shards: every TLC start costs JIT warm-up CPU; ~20k runs (~600k events) per JVM at most
+    nw = max(1, NCPU - 2)
+    shard_runs = min(20000, max(shard_runs, -(-len(runs) // nw)))
     shards = [runs[i:i + shard_runs] for i in range(0, len(runs), shard_runs)]
 
     def one(i):
